@@ -34,7 +34,7 @@ CHUNK = 4
 
 
 def budget(tier):
-    return 500 if tier == "quick" else 12000
+    return 1000 if tier == "quick" else 12000
 
 
 @e1.register
